@@ -95,12 +95,77 @@ def run(rep, tier, rng):
             if nfail == 1:
                 rep.violation({"kind": "oracle", "what": msg, "case_kind": "roundtrip", "file": f["specs"], "code": f["code"]})
     rep.sample({"type": files[0]["code"], "constructor_calls": files[0]["specs"][:2]})
+    nfail += after_failed_finalize(rep, dev, rng, tier)
+    nfail += long_files_on_disk(rep, dev, rng, tier)
     path_route(rep, files[: (40 if tier == "thorough" else 12)])
     rep.cov["oracle"] = {"files": len(files), "failing": nfail}
     rep.assumptions += ["files opened by path: sibling names (`Path::with_extension`), creation / truncation, absence of the index "
                         "are modelled (Model/Paths.v, C01_roundtrip_by_path) and tied by the kind-16 correspondence; "
                         "BufWriter/BufReader/File themselves are covered by the comparison with the in-memory route only",
                         "f64 arithmetic of the orientation test is Flocq's binary64 (round to nearest even)"]
+
+
+def after_failed_finalize(rep, dev, rng, tier):
+    """Shapes written after a finalize that failed once (I/O fault at one of its operations on either destination)
+    come back, with the index and without, like those of the undisturbed history."""
+    ops_i = [("count",), ("it", -1), ("nth", 1), ("nth", 2), ("nth", 0)]
+    nfail, n = 0, 0
+    for code in (shapes.ALL_CODES if tier == "thorough" else rng.sample(shapes.ALL_CODES, 4)):
+        a, b, c = (shapes.gen_ctor(rng, code, "small") for _ in range(3))
+        calls = [("w", a), ("f",), ("w", b), ("w", c)]
+        base = C.parse_whist(sfv.run_impl(dev, [C.whist_case(True, 0, calls)])[0])
+        one = C.parse_whist(sfv.run_impl(dev, [C.whist_case(True, 0, [("w", a)])])[0])
+        if "special" in base or "special" in one:
+            continue
+        want = sfv.run_impl(dev, [C.read_case(-1, base["shp"]["buf"], base["shx"]["buf"], ops_i),
+                                  C.read_case(-1, base["shp"]["buf"], None, [("it", -1)])])
+        fcases = [C.whist_case(True, 0, calls, fault=(dest, n0 + j, 0))
+                  for dest, n0 in ((1, one["shp"]["ops"] - 16), (2, one["shx"]["ops"] - 16))
+                  for j in (range(16) if tier == "thorough" else (0, 2, 8, 14, 15))]
+        for fc, r in zip(fcases, sfv.run_impl(dev, fcases)):
+            res = C.parse_whist(r)
+            rep.count_case((tuple(fc[:8]), tuple(r[:6])))
+            n += 1
+            if "special" in res or res["results"][1][0] != "err" or any(x != ("ok",) for x in res["results"][2:]):
+                continue
+            got = sfv.run_impl(dev, [C.read_case(-1, res["shp"]["buf"], res["shx"]["buf"], ops_i),
+                                     C.read_case(-1, res["shp"]["buf"], None, [("it", -1)])])
+            if got != want:
+                nfail += 1
+                if nfail == 1:
+                    which = "with the index" if got[0] != want[0] else "without index"
+                    rep.violation({"kind": "oracle", "what": "three shapes of type %d, the finalize after the first failing once (destination %d): "
+                                   "read back %s, the shapes written after the failed finalize are not those of the undisturbed history"
+                                   % (code, fc[3], which), "case_kind": "whist", "case": fc})
+    rep.cov["round_trips_after_a_failed_finalize"] = n
+    return nfail
+
+
+def long_files_on_disk(rep, dev, rng, tier):
+    """Files of 40-100 KiB written by the library (hundreds of multi-part shapes of varying sizes), placed on disk and
+    read through the path-based API (std's 8 KiB buffered reader: every kind of field straddles a refill somewhere):
+    same answers as from memory."""
+    import pathio
+    nfail = 0
+    plans = [(3, 300, 3), (25, 500, 4), (31, 250, 3), (8, 600, 1), (13, 200, 2), (5, 400, 2)]
+    for pi, (code, nshapes, nparts) in enumerate(plans if tier == "thorough" else plans[:3]):
+        specs = [shapes.grid_ctor(rng, code, nparts, 2 + (i % 3), "small") for i in range(nshapes)]
+        w = C.parse_whist(sfv.run_impl(dev, [C.whist_case(True, 0, [("w", sp) for sp in specs])])[0])
+        if "special" in w:
+            continue
+        for with_idx in (True, False):
+            msg = pathio.check(rep, dev, "c01long", "long%d%s" % (pi, "i" if with_idx else ""), w["shp"]["buf"],
+                               w["shx"]["buf"] if with_idx else None, code,
+                               "%d shapes of type %d with %d parts each (%d bytes) on disk, %s index"
+                               % (nshapes, code, nparts, len(w["shp"]["buf"]), "with" if with_idx else "without"))
+            rep.count_case(("long", code, with_idx, len(w["shp"]["buf"])))
+            if msg:
+                nfail += 1
+                if nfail == 1:
+                    rep.violation({"kind": "oracle", "what": msg, "case_kind": "path"})
+    pathio.cleanup("c01long")
+    rep.cov["long_files_read_by_path"] = len(plans if tier == "thorough" else plans[:3])
+    return nfail
 
 
 def path_route(rep, files):
